@@ -12,7 +12,10 @@ META = {
         "with the End payload; (3) last_valid_pos is advanced only there, and every `None` of the reader is preceded by a "
         "truncation to last_valid_pos (or on_close, which truncates when inside a batch); (4) raw journal entries are "
         "consumed only by the batch reader and both replay sites iterate batches; (5) a transaction commit is exactly one "
-        "WriteBatch::commit (not in a loop), which is one seqno and one append. Compile-fail witnesses (thorough) show that "
+        "WriteBatch::commit (not in a loop), which is one seqno and one append; (6) the entry decoder and the raw reader "
+        "contain no reachable assertion / unwrap / panic, so a torn or zero-padded tail surfaces as an error that is "
+        "truncated away, and a repair leaves the file ending exactly at the last valid byte with the recovered journal "
+        "opened in append mode. Compile-fail witnesses (thorough) show that "
         "a committed batch / transaction cannot be used again."),
     "not_decided": [
         "the byte-level decode behaviour for every offset the journal can end at (needs execution / symbolic reasoning)",
@@ -175,6 +178,24 @@ def run(ctx):
         ok = bool(ap) and all(og.of_operand(t["args"][1]).k == "const" and og.of_operand(t["args"][1]).a == ("bool", True) for b, t in ap)
         # the append-mode handle is the one wrapped by the BufWriter of the existing-file branch
         ctx.ob("R-C03.3", wf, "recovered-journal-opened-in-append-mode", ok, "an existing journal is opened with append(true): new batches follow the repaired tail" if ok else "an existing journal is not opened in append mode")
+
+    # ---- R-C03.6 decoding a (possibly torn, zero-padded) journal tail cannot panic
+    PANICS = ("core::panicking::", "std::rt::begin_panic", "std::panicking::")
+    for fid in ("journal::entry::Entry::decode_from", "<journal::reader::JournalReader as std::iter::Iterator>::next",
+                "<journal::entry::Tag as std::convert::TryFrom<u8>>::try_from"):
+        fn = ctx.fn(fid, "R-C03.6")
+        if not fn:
+            continue
+        live = A.live_blocks(fn)
+        bad = []
+        for b, t in fn.calls():
+            n = A.cname(t)
+            if b in live and (n.startswith(PANICS) or n.endswith("::unwrap") or n.endswith("::expect") or n.endswith("::unwrap_unchecked")):
+                bad.append((b, n))
+        ctx.count_sites(len(fn.calls()))
+        ctx.ob("R-C03.6", fn, "no-panic-on-untrusted-bytes", not bad,
+               "no assertion / unwrap / panic is reachable while decoding journal bytes: a torn or padded tail surfaces as an error and is truncated" if not bad
+               else "decoding journal bytes can panic (%s at %s): a torn item header followed by the zero padding of the pre-allocated file aborts recovery instead of being discarded" % (bad[0][1].split("::<")[0], fn.loc(bad[0][0])))
 
     # ---- R-C03.4 recovery consumes batches, not entries
     cs = cg.callers(RAW_NEXT)
